@@ -61,6 +61,14 @@ fn inner(c: &TimeoutCase) -> Result<CaseReport, Stop> {
         0 | 1 => {
             let mut b = bind_tiny(c.op == 1, &dir)?;
             opname = if c.op == 1 { "TcpListener::accept_with_timeout" } else { "UnixListener::accept_with_timeout" };
+            // nobody connects: a call still parked in an untimed wait long after the limit can only
+            // be released by a connection, which the harness then makes
+            let (path, port) = (b.path.clone(), b.port);
+            let hw = HangWatch::start(d + Duration::from_millis(1500), || true, move || {
+                let c = if path.is_empty() { libc_tcp_connect(port, false) } else { libc_unix_connect(&path) };
+                std::thread::sleep(Duration::from_millis(300));
+                drop(c);
+            });
             plan_eintr(c.eintr);
             let t0 = Instant::now();
             let r = no_panic(opname, || match &mut b.l {
@@ -68,6 +76,10 @@ fn inner(c: &TimeoutCase) -> Result<CaseReport, Stop> {
                 TinyListener::T(l) => l.accept_with_timeout(d).map(|_s| true),
             });
             let el = t0.elapsed();
+            if let Some(wait) = hw.finish() {
+                sc::verif::clear_plan();
+                return Err(stop_fail(format!("{opname}|never-timed-out|blocked in an untimed wait"), format!("{opname}({d:?}) with nobody connecting was still parked in {wait} {el:?} after the call; it came back only when the harness connected")));
+            }
             (r?, el)
         }
         2 => {
